@@ -179,6 +179,10 @@ class ST:
             return ST.ew(I, lambda x, y: s_mul(I, x, y), a, b, dtype=dt)
         if isinstance(op, ast.Div):
             return ST.ew(I, ct.sc_div, a, b, dtype="float")
+        if isinstance(op, ast.Mod):
+            return ST.ew(I, lambda x, y: to_z3(x) % to_z3(y), a, b, dtype=self.dtype)
+        if isinstance(op, ast.FloorDiv):
+            return ST.ew(I, lambda x, y: to_z3(x) / to_z3(y), a, b, dtype=self.dtype)
         if isinstance(op, ast.BitAnd):
             return ST.ew(I, ct.sc_and, a, b, dtype="bool")
         if isinstance(op, ast.BitOr):
@@ -388,14 +392,29 @@ def _transpose(I, t, d0, d1):
 
 @meth("flatten")
 def _flatten(I, t, start_dim=0, end_dim=-1):
+    """merge dims start..end: unit dimensions vanish; two non-unit dimensions (A, B) become A * B with the row-major index split
+    i -> (i div B, i mod B)"""
     n = len(t.shape)
     a, b = start_dim % n, end_dim % n
     dims = t.shape[a:b + 1]
     big = [(i, d) for i, d in enumerate(dims) if not (isinstance(d, int) and d == 1)]
-    if len(big) > 1:
-        raise Unsupported("flatten that merges two symbolic dimensions")
-    keep = big[0][0] if big else 0
+    if len(big) > 2:
+        raise Unsupported("flatten that merges more than two non-unit dimensions")
     e = t.elem
+    if len(big) == 2:
+        (p0, d0), (p1, d1) = big
+        size = to_z3(d0) * to_z3(d1)
+        new_shape = t.shape[:a] + (size,) + t.shape[b + 1:]
+        d1z = to_z3(d1)
+
+        def elem2(*idx):
+            mid = [0] * len(dims)
+            i = to_z3(idx[a])
+            mid[p0], mid[p1] = i / d1z, i % d1z
+            return e(*(list(idx[:a]) + mid + list(idx[a + 1:])))
+
+        return ST(new_shape, elem2, t.dtype)
+    keep = big[0][0] if big else 0
     new_shape = t.shape[:a] + ((big[0][1] if big else 1),) + t.shape[b + 1:]
 
     def elem(*idx):
@@ -404,6 +423,74 @@ def _flatten(I, t, start_dim=0, end_dim=-1):
         return e(*(list(idx[:a]) + mid + list(idx[a + 1:])))
 
     return ST(new_shape, elem, t.dtype)
+
+
+@meth("topk")
+def _topk(I, t, k, dim=-1, largest=True, sorted=True):
+    """assumed contract of topk along the last dimension of a matrix for a symbolic k: indices in range and pairwise distinct, the
+    value is the element at the index, values non-increasing, every element that was not selected is <= the last selected value
+    (no tie rule). Instance builders recorded in ghost['topks']."""
+    if len(t.shape) != 2 or dim % 2 != 1 or not largest:
+        raise Unsupported("topk other than along the last dimension of a matrix")
+    Mx, K = to_z3(t.shape[1]), to_z3(k)
+    IDX = _fresh("topk_index", z3.IntSort(), z3.IntSort(), z3.IntSort())
+    VAL = _fresh("topk_value", z3.IntSort(), z3.IntSort(), z3.RealSort())
+    te = t.elem
+    I.ex.oblige("topk.k_at_most_the_extent", z3.And(K >= 0, K <= Mx))
+    n_, k_, k2_, j_ = z3.Ints("n_tk k_tk k2_tk j_tk")
+    rows = lambda nn: z3.And(nn >= 0, nn < to_z3(t.shape[0]))
+    at = lambda nn, kk: z3.Implies(z3.And(rows(nn), 0 <= kk, kk < K), z3.And(0 <= IDX(nn, kk), IDX(nn, kk) < Mx, VAL(nn, kk) == to_z3(te(nn, IDX(nn, kk)))))
+    distinct = lambda nn, kk, kk2: z3.Implies(z3.And(rows(nn), 0 <= kk, kk < kk2, kk2 < K), IDX(nn, kk) != IDX(nn, kk2))
+    ordered = lambda nn, kk, kk2: z3.Implies(z3.And(rows(nn), 0 <= kk, kk <= kk2, kk2 < K), VAL(nn, kk) >= VAL(nn, kk2))
+    notsel = lambda nn, jj: z3.ForAll([k_], z3.Implies(z3.And(0 <= k_, k_ < K), IDX(nn, k_) != jj))
+    optimal = lambda nn, jj: z3.Implies(z3.And(rows(nn), 0 <= jj, jj < Mx, K >= 1, notsel(nn, jj)), to_z3(te(nn, jj)) <= VAL(nn, K - 1))
+    I.ex.assume(z3.ForAll([n_, k_], at(n_, k_)))
+    I.ex.assume(z3.ForAll([n_, k_, k2_], distinct(n_, k_, k2_)))
+    I.ex.assume(z3.ForAll([n_, k_, k2_], ordered(n_, k_, k2_)))
+    I.ex.assume(z3.ForAll([n_, j_], optimal(n_, j_)))
+    I.ex.ghost.setdefault("topks", []).append({"IDX": IDX, "VAL": VAL, "at": at, "distinct": distinct, "ordered": ordered, "optimal": optimal, "notsel": notsel, "K": K, "M": Mx})
+    shape = (t.shape[0], k)
+    return ct.MinMaxResult(ST(shape, lambda a, b: VAL(to_z3(a), to_z3(b)), "float"), ST(shape, lambda a, b: IDX(to_z3(a), to_z3(b)), "long"))
+
+
+def f_cat(I, ts, dim=0):
+    """concatenation of two tensors along one dimension"""
+    ts = list(ts)
+    if len(ts) != 2 or not all(isinstance(x, ST) for x in ts):
+        raise Unsupported("cat other than of two symbolic-shape tensors")
+    a, b = ts
+    d = dim % len(a.shape)
+    for i, (x, y) in enumerate(zip(a.shape, b.shape)):
+        if i != d and not dim_eq(x, y):
+            I.ex.oblige("cat.other_dimensions_agree", to_z3(x) == to_z3(y))
+    ae, be, na = a.elem, b.elem, to_z3(a.shape[d])
+    size = a.shape[d] + b.shape[d]
+    size = z3.simplify(size) if is_z3(size) else size
+
+    def elem(*idx):
+        i = to_z3(idx[d])
+        return sc_where(i < na, ae(*idx), be(*(list(idx[:d]) + [i - na] + list(idx[d + 1:]))))
+
+    return ST(a.shape[:d] + (size,) + a.shape[d + 1:], elem, a.dtype if a.dtype == b.dtype else "float")
+
+
+@meth("new_full")
+def _new_full(I, t, size, v, **k):
+    return ST.const(tuple(size), v, ct.dtype_tag(k.get("dtype"), t.dtype))
+
+
+@meth("new_zeros")
+def _new_zeros(I, t, *size, **k):
+    if len(size) == 1 and isinstance(size[0], (tuple, list)):
+        size = tuple(size[0])
+    return ST.const(tuple(size), False if t.dtype == "bool" else 0, ct.dtype_tag(k.get("dtype"), t.dtype))
+
+
+@meth("new_empty")
+def _new_empty(I, t, *size, **k):
+    if len(size) == 1 and isinstance(size[0], (tuple, list)):
+        size = tuple(size[0])
+    return f_empty(I, *size, dtype=ct.dtype_tag(k.get("dtype"), t.dtype))
 
 
 @meth("square")
@@ -850,6 +937,13 @@ def f_zeros(I, *size, dtype=None, device=None, **k):
     return ST.const(tuple(size), False if dt == "bool" else 0, dt)
 
 
+def f_ones(I, *size, dtype=None, device=None, **k):
+    if len(size) == 1 and isinstance(size[0], (tuple, list)):
+        size = tuple(size[0])
+    dt = ct.dtype_tag(dtype, "float")
+    return ST.const(tuple(size), True if dt == "bool" else 1, dt)
+
+
 def f_full_like(I, t, v, **k):
     return ST.const(t.shape, v, t.dtype)
 
@@ -878,7 +972,7 @@ def dispatch(name, ct_fn):
 
 
 METH["softmax"] = f_softmax
-FUNCS.update({"torch.zeros": f_zeros, "torch.nn.functional.softmax": f_softmax, "torch.softmax": f_softmax, "torch.pow": f_pow, "torch.matmul": lambda I, a, b: _matmul(I, a, b), "torch.empty": f_empty, "torch.arange": f_arange, "torch.full": f_full, "torch.full_like": f_full_like, "torch.where": f_where, "torch.min": f_min})
+FUNCS.update({"torch.cat": f_cat, "torch.ones": f_ones, "torch.zeros": f_zeros, "torch.nn.functional.softmax": f_softmax, "torch.softmax": f_softmax, "torch.pow": f_pow, "torch.matmul": lambda I, a, b: _matmul(I, a, b), "torch.empty": f_empty, "torch.arange": f_arange, "torch.full": f_full, "torch.full_like": f_full_like, "torch.where": f_where, "torch.min": f_min})
 
 
 def stubs():
